@@ -7,7 +7,7 @@ import time
 import traceback
 
 from . import facts as factsmod
-from .report import Out, write_evidence, load_known, VERIF
+from .report import Out, write_evidence, load_known, VERIF, evidence_dir
 
 PROPS = ['C%02d' % i for i in range(1, 21)]
 
@@ -68,7 +68,7 @@ def run_property(pid, tier, seed):
     out.explanation = getattr(mod, 'EXPLANATION', '')
     rc = 0
     if new:
-        rdir = os.path.join(VERIF, 'evidence', 'replay')
+        rdir = os.path.join(evidence_dir(), 'replay')
         os.makedirs(rdir, exist_ok=True)
         rp = os.path.join(rdir, '%s-%d.json' % (pid, int(t0)))
         with open(rp, 'w') as fh:
